@@ -3,7 +3,7 @@
    Save/KahnProofs.v, Save/TopoRegress.v. *)
 From Coq Require Import List ZArith Bool Permutation.
 From RtoscV Require Ports.NameModel.
-From RtoscV Require Import Save.TopoModel Save.KahnProofs Save.TopoProofs Save.TopoEdges Save.TopoPerm Save.TopoTree Save.TopoRegress.
+From RtoscV Require Import Save.TopoModel Save.KahnProofs Save.TopoProofs Save.TopoEdges Save.TopoPerm Save.TopoTree Save.TopoRegress Save.TopoRoot.
 From RtoscV Require Save.DeclModel Save.DeclProofs Save.CondModel Save.CondProofs.
 From RtoscV Require Import Save.SaveModel Save.SaveProofs Save.RoundFull Save.CommuteProofs Save.PermApp.
 Import ListNotations.
@@ -72,6 +72,27 @@ Theorem C13_edges_complete_self : forall A apropos fuel (ms : list (message A)) 
   index_of A t ms = Some i -> has_key (map_keys A ms) t = true -> t <> k ->
   In (i, o) ps.
 Proof. exact edges_complete_self. Qed.
+
+(* The ROOT table's "self:" port (rSelf(.., rEnabledBy(on)) on the table handed to load_from_file):
+   scan_deps never visits the root as a directory, its "self:" is looked up in the round of the
+   root-level component (rel2abs("self:", "/x") = "/self:").  Every entry of that port whose target
+   has a line gives the edge to a root-level line /x ... *)
+Theorem C13_edges_complete_root_self : forall A apropos fuel (ms : list (message A)) ps x o m e t i,
+  pushes A apropos fuel ms = Some ps ->
+  ~ In slash x ->
+  In (slash :: x) (map_keys A ms) -> index_of A (slash :: x) ms = Some o ->
+  apropos (slash :: self_name) = Some m ->
+  In e (dep_values m) -> resolve_entry false (port_name m) e (slash :: x) = Some t ->
+  index_of A t ms = Some i -> has_key (map_keys A ms) t = true -> t <> slash :: x ->
+  In (i, o) ps.
+Proof. exact edges_complete_root_self. Qed.
+
+(* ... and (computed; non-vacuity) to the lines below: root { self: enabled by "on", on, x, sub/{y} },
+   file /x, /sub/y, /on: the line of /on is pushed for both others *)
+Theorem C13_root_self_nonvacuous :
+  let ms := [([47; 120], tt); ([47; 115; 117; 98; 47; 121], tt); ([47; 111; 110], tt)]%Z in
+  pushes unit ex_root_apropos 10%nat ms = Some [(2%nat, 1%nat); (2%nat, 0%nat)].
+Proof. exact root_self_example. Qed.
 
 (* "... including files where a depended-on port is itself absent": a reference that passes
    through ports WITHOUT a line - k refers to u (by an entry of its own, a parent's or a "self:"
